@@ -117,7 +117,7 @@ def main():
 
     results, failures, broken = [], [], []
     procs = {w: spawn(w, w) for w in range(WORKERS)}
-    deadline = t0 + budget["secs"] + 600
+    deadline = t0 + budget["secs"] * 3 + 1200
     for w, p in procs.items():
         try:
             out, err = p.communicate(timeout=max(1, deadline - time.time()))
@@ -179,10 +179,15 @@ def main():
     fired["ct_hits_dropped"] = sum(r.get("drops", 0) for r in okruns)
     steps = sum(r.get("steps", 0) for r in okruns)
     samples = []
-    for r in okruns[:3]:
-        samples.append({"run": r["run"], "seed": r["seed"], "steps": r.get("steps"), "ops": r.get("ops"),
+    for r in sorted(okruns, key=lambda r: r["run"]):
+        if len(samples) >= 3: break
+        if "story" not in r and prop != "C18": continue
+        samples.append({"run": r["run"], "seed": r["seed"], "steps": r.get("steps"),
+                        "first_steps": r.get("story"), "ops": r.get("ops"),
                         "fired": r.get("fired"), "event_hash": r["hash"],
-                        "replay": "build/asan/sim.bin gen --prop %s --seed %s > p.plan && build/asan/sim.bin replay p.plan" % (prop, r["seed"])})
+                        "replay": "build/asan/sim.bin gen --prop %s --seed %s%s > p.plan && build/asan/sim.bin replay p.plan" % (prop, r["seed"], " --thorough" if tier == "thorough" else "")})
+    astates = set()
+    for r in okruns: astates.update(r.get("astates", []))
     ev = {
         "property_id": prop, "tier": tier, "seed": seed, "level": "exploration",
         "coverage": {
@@ -192,6 +197,8 @@ def main():
                     "counted as non-trivial when the run executed at least one step characteristic of this property (%s) and distinct by its final event-log hash" % ", ".join(CHAR.get(prop, ["."])),
             "samples": samples or [{"note": "no run completed"}],
             "simulated_steps": steps,
+            "distinct_abstract_states": len(astates),
+            "abstract_state_measure": "per forest: log2 buckets of active nodes, of the highest handle in use and of the number of held edges, hashed together after every step",
             "simulated_time_steps": steps,
             "runs_per_hour": int(len(okruns) / max(wall, 1e-3) * 3600),
             "faults_fired": fired,
